@@ -261,6 +261,7 @@ def validate(calls, ops, opts, model_exe, res, keys_known, check_every_layout=Tr
     repaired = False
     repair_new = set()    # tables created by repair from log files
     gc_clean = True       # the last obsolete-file removal ran while no iterator pinned an old version
+    planted = False       # an orphan table was planted (`plant`) and no collector run has been observed since
     backups = {}          # C20: backup slot -> model view at the moment the backup was taken
     copies = {}           # C20: copy slot -> model view at the moment the (last successful) copy was taken
     lk_open = False       # C20: the lock model (Lifecycle.v lk_step) has a handle open on the directory
@@ -646,6 +647,8 @@ def validate(calls, ops, opts, model_exe, res, keys_known, check_every_layout=Tr
                 iters.pop(int(a[1]) % 64, None)
                 m.ask('e_iclose %d' % (int(a[1]) % 64))
 
+            if name == 'plant': planted = True
+            elif any(not (g.get('order') == 'ls' and not g['rm']) for g in call.get('gcs', [])): planted = False
             # ---- structural steps of this call
             for ed in call['edits']:
                 structural(ed)
@@ -698,7 +701,7 @@ def validate(calls, ops, opts, model_exe, res, keys_known, check_every_layout=Tr
                     if kv['L%d' % L] != '.':
                         live |= {int(t.split(':')[0]) for t in kv['L%d' % L].split(',')}
                 ondisk = {int(n.split('.')[0]) for n in (call['dir'] or []) if n.endswith('.ldb') or n.endswith('.sst')}
-                if not iters and gc_clean and ondisk != live:
+                if not iters and gc_clean and not planted and ondisk != live:
                     res.problem('dir-vs-live', call['idx'], ondisk=sorted(ondisk), live=sorted(live))
                 elif live - ondisk:
                     res.problem('dir-vs-live', call['idx'], ondisk=sorted(ondisk), live=sorted(live), detail='live file missing')
